@@ -2,7 +2,7 @@ SPECIFICATION SpecSeconds
 CONSTANTS FirstYear = 1901 LastYear = 2099
 CONSTANT JumpDates <- DatesThorough
 CONSTANT JumpSods <- SodsThorough
-CONSTRAINT Within12
+CONSTRAINT Within10
 INVARIANT TypeOK
 INVARIANT MonthLengths
 INVARIANT LeapRule
